@@ -127,6 +127,7 @@ func ExecSteps(env *sim.Env, root string, steps []Step, st *Stats) []StepResult 
 				r.Err = os.Chmod(p, os.FileMode(s.K))
 			}
 		case "symlink":
+			os.MkdirAll(filepath.Dir(p), 0o755)
 			os.Remove(p)
 			r.Err = os.Symlink(w(root, string(s.Data)), p)
 		case "hardlink":
